@@ -109,7 +109,7 @@ def main():
                 if kind == "str":
                     return ast.StringConstant("lit%d" % i)
                 if kind == "var":
-                    return ast.Variable("v%d" % i)
+                    return ast.Variable("v%d" % min(i, 1))
                 if kind == "lambda":
                     lp = ast.ParameterDeclaration("lp%d" % i, Int())
                     lam = ast.Lambda("lam%d" % i, [lp], Int(), lit(4811), sig)
@@ -129,12 +129,18 @@ def main():
                 if kind == "bool":
                     return ast.BooleanConstant("false")
                 return ast.CharConstant("c")
-            opn = sh["op"]
-            cls_, oper = ((ast.LogicalExpr, ast.Operator(opn)) if opn in ("&&", "||") else
-                          (ast.ComparisonExpr, ast.Operator(opn)) if opn in (">", "<=") else
-                          (ast.EqualityExpr, ast.Operator("==", is_not=(opn == "!="))))
+            def binop(opn, a, b):
+                cls_, oper = ((ast.LogicalExpr, ast.Operator(opn)) if opn in ("&&", "||") else
+                              (ast.ComparisonExpr, ast.Operator(opn)) if opn in (">", "<=") else
+                              (ast.EqualityExpr, ast.Operator("==", is_not=(opn == "!="))))
+                return cls_(a, b, oper)
             try:
-                expr = cls_(operand(sh["l"], 0), operand(sh["r"], 1), oper)
+                if "nest" not in sh:
+                    expr = binop(sh["op"], operand(sh["l"], 0), operand(sh["r"], 1))
+                elif sh["nest"] == "left":
+                    expr = binop(sh["op2"], binop(sh["op"], operand(sh["l"], 0), operand(sh["m"], 1)), operand(sh["r"], 2))
+                else:
+                    expr = binop(sh["op"], operand(sh["l"], 0), binop(sh["op2"], operand(sh["m"], 1), operand(sh["r"], 2)))
                 res = ast.VariableDeclaration("res", expr, is_final=True, var_type=bt.get_boolean_type())
                 c.add_var(G, "res", res)
                 prog = ast.Program(c, lang)
